@@ -4,9 +4,11 @@ package main
 // transactions, observations rendered in the line protocol.
 
 import (
+	ethcrypto "com.tuntun.rangers/node/src/eth_crypto"
 	"encoding/json"
 	"fmt"
 	"math/big"
+	"os"
 	"strconv"
 	"strings"
 	"time"
@@ -23,15 +25,17 @@ import (
 var rpgAddr = common.HexToAddress("0x71d9cfd1b7adb1e8eb4c193ce6ffbe19b4aee0db") // the genesis wRPG contract address
 
 type QTx struct {
-	line   string // op line without the oracle suffix
-	tx     *types.Transaction
-	isCt   bool
-	feat   map[string]bool // features for the searcher's classification
-	locked *big.Int        // stake this tx locks when it succeeds
+	line    string // op line without the oracle suffix
+	tx      *types.Transaction
+	isCt    bool
+	feat    map[string]bool // features for the searcher's classification
+	locked  *big.Int        // stake this tx locks when it succeeds
+	mayBurn bool            // a SELFDESTRUCT is reachable from this transaction (set by the searcher)
 }
 
 type World struct {
 	adb           *account.AccountDB
+	store         account.AccountDatabase
 	univ          []common.Address
 	height        uint64
 	seq           uint64
@@ -43,22 +47,42 @@ type World struct {
 	pendingMiners []minerRec
 	minerSeq      uint64
 	refundSeq     uint64
-	authUsed      bool            // a queued transaction of the current block already targets authC
+	authUsed      bool // a queued transaction of the current block already targets authC
+	installed     map[common.Address]bool
+	escrowHeights map[uint64]bool
 	authC         *common.Address // the one contract whose script uses AUTHCALL (re-assembled before every block)
 }
 
-func newAccountDB() *account.AccountDB {
+func newAccountDB() (*account.AccountDB, account.AccountDatabase) {
 	mem, err := db.NewMemDatabase()
 	if err != nil {
 		panic(err)
 	}
-	adb, err := account.NewAccountDB(common.Hash{}, account.NewDatabase(mem))
+	store := account.NewDatabase(mem)
+	adb, err := account.NewAccountDB(common.Hash{}, store)
 	if err != nil {
 		panic(err)
 	}
 	// genesis does exactly this for the native token (core/genesis_block.go: createGenesisContract)
 	adb.AddERC20Binding(common.BLANCE_NAME, rpgAddr, 3, 18)
-	return adb
+	return adb, store
+}
+
+// reopen commits the state and opens a fresh AccountDB at the new root, as the node does for every block
+// (middleware.AccountDBManager.GetAccountDBByHash): object caches and `deleted` marks do not outlive a block.
+func (w *World) reopen() {
+	root, err := w.adb.Commit(true)
+	if err != nil {
+		panic(err)
+	}
+	if err := w.store.TrieDB().Commit(root, false); err != nil {
+		panic(err)
+	}
+	adb, err := account.NewAccountDB(root, w.store)
+	if err != nil {
+		panic(err)
+	}
+	w.adb = adb
 }
 
 func NewWorld(out *hx.Out) *World {
@@ -68,13 +92,16 @@ func NewWorld(out *hx.Out) *World {
 }
 
 func (w *World) Reset(emit bool) {
-	w.adb = newAccountDB()
+	w.adb, w.store = newAccountDB()
 	w.queue = nil
 	w.inits = map[int]Script{}
 	w.codes = map[common.Address]Script{}
 	w.authC = nil
+	w.installed = map[common.Address]bool{}
+	w.escrowHeights = map[uint64]bool{}
 	w.miners = nil
 	w.pendingMiners = nil
+	w.installMainNode()
 	if emit {
 		w.out.Emit("reset", "ok")
 		w.Univ(w.univ)
@@ -127,6 +154,12 @@ func (w *World) refreshAuth() {
 		return
 	}
 	a := *w.authC
+	if len(w.adb.GetCode(a)) == 0 && len(w.queue) >= 0 && w.installed[a] {
+		// the contract self-destructed in an earlier block: it is gone, do not resurrect it
+		w.authC = nil
+		return
+	}
+	w.installed[a] = true
 	au := newAuth(a, w.height+1, w.adb.GetNonce(authorityAddr()), w.budget)
 	w.adb.SetCode(a, assemble(w.codes[a], w.inits, au, w.budget))
 }
@@ -282,11 +315,13 @@ type BlockResult struct {
 	After    *big.Int
 	Panic    string
 	GasUsed  []uint64
+	Msgs     []string
 }
 
 // Exec runs the queued transactions as one block through the unmodified VMExecutor and emits
 // the tx lines (with the gas oracle) and the exec line.
 func (w *World) Exec() BlockResult {
+	w.reopen()
 	w.refreshAuth()
 	w.authUsed = false
 	res := BlockResult{Before: w.Total()}
@@ -296,6 +331,16 @@ func (w *World) Exec() BlockResult {
 		Castor: []byte{0xca, 0x57}}}
 	for _, q := range w.queue {
 		block.Transactions = append(block.Transactions, q.tx)
+	}
+	if os.Getenv("C06_DEBUG") != "" {
+		for _, q := range w.queue {
+			src := common.HexToAddress(q.tx.Source)
+			n := w.adb.GetNonce(src)
+			for d := uint64(0); d < 3; d++ {
+				ca := ethcrypto.CreateAddress(src, n+d)
+				fmt.Printf("DEBUG src=%s nonce=%d+%d create=%s nonce@=%d codelen=%d exist=%v\n", q.tx.Source, n, d, ca.GetHexString(), w.adb.GetNonce(ca), len(w.adb.GetCode(ca)), w.adb.Exist(ca))
+			}
+		}
 	}
 	var evicted []common.Hash
 	var receipts []*types.Receipt
@@ -336,6 +381,11 @@ func (w *World) Exec() BlockResult {
 			gu = rc[q.tx.Hash].GasUsed
 		}
 		res.GasUsed = append(res.GasUsed, gu)
+		if r := rc[q.tx.Hash]; r != nil {
+			res.Msgs = append(res.Msgs, r.Msg)
+		} else {
+			res.Msgs = append(res.Msgs, "")
+		}
 		if q.isCt {
 			w.out.Emit(q.line+" "+strconv.FormatUint(gu, 10), "q")
 		} else {
@@ -351,11 +401,22 @@ func (w *World) Exec() BlockResult {
 			}
 		}
 	}
+	for i, q := range w.queue {
+		if q.feat["node"] && st.String()[i] == 's' {
+			src := common.HexToAddress(q.tx.Source)
+			for j := range w.miners {
+				if w.miners[j].account == src {
+					w.miners[j].account = addrPlusOne(src)
+				}
+			}
+		}
+	}
 	w.pendingMiners = nil
 	res.Statuses = st.String()
 	if res.Statuses == "" {
 		res.Statuses = "-"
 	}
+	w.reopen()
 	line := w.stateLine()
 	res.After = w.Total()
 	w.out.Emit("exec", res.Statuses+" "+line)
